@@ -17,6 +17,7 @@ import (
 	"regexp"
 	"sort"
 	"strings"
+	"unicode"
 
 	"golang.org/x/tools/go/ssa"
 )
@@ -608,7 +609,7 @@ func ruleLexMode(c *Ctx) {
 			c.check(setterBefore(e, "SetExpectSymbol", true), name+"|UNDERSCORE", c.pos(e.instr.Pos()), name, "`_` switches symbol mode on", "`_` no longer makes the lexer expect a symbol: `C_7` lexes 7 as a NUMBER")
 		case "SYMBOL":
 			c.site(1)
-			okScan := scannedBy(e, "scanSymbol")
+			okScan := scannedBy(e, "scanSymbol") && !scannedBy(e, "scanDigits") && !scannedBy(e, "scanMetadata")
 			// the emission under expectSymbol must clear the mode
 			underExpect := false
 			if side, ok := c.branchSide(e.instr.Block(), func(v ssa.Value) bool { n, _, ok := loadedField(v); return ok && n == "expectSymbol" }); ok && side {
@@ -619,7 +620,7 @@ func ruleLexMode(c *Ctx) {
 				}
 			}
 			cleared := !underExpect || setterBefore(e, "SetExpectSymbol", false)
-			c.check(okScan && cleared, fmt.Sprintf("%s|SYMBOL|%d", name, seen[e.tok]), c.pos(e.instr.Pos()), name, "SYMBOL comes from scanSymbol; symbol mode is cleared", fmt.Sprintf("SYMBOL emission: scannedBySymbolScanner=%v modeCleared=%v — after `_sym` the lexer stays in symbol mode, or symbols are scanned by another routine", okScan, cleared))
+			c.check(okScan && cleared, fmt.Sprintf("%s|SYMBOL|%d", name, seen[e.tok]), c.pos(e.instr.Pos()), name, "SYMBOL comes from scanSymbol alone; symbol mode is cleared", fmt.Sprintf("SYMBOL emission: scannedBySymbolScannerAlone=%v modeCleared=%v — after `_sym` the lexer stays in symbol mode, or symbols are (also) scanned by another routine, which cuts them where that routine stops (`_7sus4` after its digits)", okScan, cleared))
 		case "METADATA":
 			c.site(1)
 			c.check(scannedBy(e, "scanMetadata"), name+"|METADATA", c.pos(e.instr.Pos()), name, "METADATA comes from scanMetadata under metadata mode", "METADATA is not produced by scanMetadata")
@@ -735,6 +736,44 @@ func ruleLexMode(c *Ctx) {
 			}
 			sort.Strings(missing)
 			c.check(len(missing) == 0, name+"|"+run.label+"-terminators", c.pos(fn.Pos()), name, fmt.Sprintf("a %s run stops at %q, which covers every token that may follow it", run.label, run.excl), fmt.Sprintf("a %s run (terminators %q) does not stop at %v: the following token or comment is swallowed into the %s text", run.label, run.excl, missing, run.label))
+		}
+	}
+	// ... and at nothing else: the two run predicates refuse exactly the documented terminators (decided by folding them
+	// on every rune below U+0300 and a sample beyond); white space ends a symbol and is part of a metadata text
+	if lt, err := c.lexerTables(); err == nil && lt.exclFolded {
+		sortRunes := func(s string) string {
+			rs := []rune(s)
+			sort.Slice(rs, func(i, j int) bool { return rs[i] < rs[j] })
+			return string(rs)
+		}
+		for _, run := range []struct{ label, got, want, pred string }{
+			{"symbol", lt.symbolExcl, "/[_;=", "LexScanner.isSymbolRune"},
+			{"metadata", lt.metaExcl, "{}=,", "LexScanner.isMetadataRune"},
+		} {
+			c.site(1)
+			problem := ""
+			if sortRunes(run.got) != sortRunes(run.want) {
+				problem = fmt.Sprintf("a %s run stops at %q, the tokenisation says %q: a text that is a sentence is cut at the extra rune (or a token is swallowed at the missing one)", run.label, sortRunes(run.got), sortRunes(run.want))
+			}
+			if pf := c.fn("input/ast", run.pred); pf != nil && problem == "" {
+				for _, r := range lexRuneDomain() {
+					if r < 0 || !unicode.IsSpace(r) {
+						continue
+					}
+					args := []fval{{k: constant.MakeInt64(int64(r)), t: types.Typ[types.Rune]}}
+					if len(pf.Params) == 2 {
+						args = append([]fval{top}, args...)
+					}
+					v, err := c.newFolder().foldCall(pf, args)
+					if err != nil || v.k == nil {
+						continue
+					}
+					if in := constant.BoolVal(v.k); in != (run.label == "metadata") {
+						problem = fmt.Sprintf("the white space character %q is part=%v of a %s run (a symbol ends at white space; a metadata text may contain any of it, line breaks included)", r, in, run.label)
+					}
+				}
+			}
+			c.check(problem == "", name+"|"+run.label+"-exact", c.pos(fn.Pos()), name, fmt.Sprintf("a %s run stops exactly at %q", run.label, run.want), name+": "+problem)
 		}
 	}
 	// no silent end of input: in plain mode a rune is a one-rune token, starts a number, a comment or a symbol; the runes
@@ -912,6 +951,17 @@ func ruleSpell(c *Ctx) {
 		}
 	}
 	sort.Strings(alt)
+	// the spellings themselves: a sharp is written # or U+266F, a flat b or U+266D; any other rune lexed as one of them is
+	// read as a note it does not denote (the natural sign as a flat, say), and a sign that is missing is no longer an accidental
+	for _, tok := range []struct {
+		name string
+		want []rune
+	}{{"SHARP", []rune{'#', 0x266f}}, {"FLAT", []rune{'b', 0x266d}}} {
+		c.site(1)
+		got := append([]rune{}, multi[tok.name]...)
+		sort.Slice(got, func(i, j int) bool { return got[i] < got[j] })
+		c.check(string(got) == string(tok.want), "lexer|spellings|"+tok.name, c.pos(lt.pos), "", fmt.Sprintf("%s is written %q", tok.name, string(tok.want)), fmt.Sprintf("the lexer reads %q as %s, the notation has %q: a sign is lexed as an accidental it is not, or a sign of the notation is no longer one", string(got), tok.name, string(tok.want)))
+	}
 	// consumers: any invoke of Value() on a token loaded from ChordDegree.Accidental, wherever it is (an accessor next to
 	// the AST included), except in generated code and in the canonicaliser itself
 	n := 0
